@@ -73,7 +73,16 @@ func init() {
 
 // evalSpec evaluates the generic parts of a spec file.
 func evalSpec(c *Ctx, p *Prog, s *specFile, rConst, rCall, rTerm string) {
+	evalSpecFiltered(c, p, s, rConst, rCall, rTerm, nil)
+}
+
+// evalSpecFiltered evaluates only the entries for which keep returns true
+// (kind is "const", "call" or "term"; name the constant / function key).
+func evalSpecFiltered(c *Ctx, p *Prog, s *specFile, rConst, rCall, rTerm string, keep func(kind, name string) bool) {
 	for _, k := range s.Consts {
+		if keep != nil && !keep("const", k.Pkg+"."+k.Name) {
+			continue
+		}
 		ob := c.Obl(rConst, "const:"+k.Pkg+"."+k.Name, "protocol constant has the value the wire format prescribes ("+k.Why+")")
 		sp := p.SPkgs[k.Pkg]
 		if sp == nil {
@@ -101,6 +110,9 @@ func evalSpec(c *Ctx, p *Prog, s *specFile, rConst, rCall, rTerm string) {
 		}
 	}
 	for _, k := range s.CallArgs {
+		if keep != nil && !keep("call", k.Func+"#"+k.Callee) {
+			continue
+		}
 		ob := c.Obl(rCall, "args:"+k.Func+"#"+strings.TrimPrefix(k.Callee, "$M/"), "the constants at this use site are the ones the wire format prescribes ("+k.Why+")")
 		fn := p.Func(k.Func)
 		if fn == nil {
@@ -142,6 +154,9 @@ func evalSpec(c *Ctx, p *Prog, s *specFile, rConst, rCall, rTerm string) {
 		}
 	}
 	for _, k := range s.Terms {
+		if keep != nil && !keep("term", fmt.Sprintf("%s#%d", k.Func, k.Result)) {
+			continue
+		}
 		ob := c.Obl(rTerm, fmt.Sprintf("term:%s#%d", k.Func, k.Result), "the value built here has the layout the wire format prescribes ("+k.Why+"); reconstructed from the def-use chains as an expression tree and compared with the spec term")
 		fn := p.Func(k.Func)
 		if fn == nil {
